@@ -33,6 +33,19 @@ COMPONENTS = {
 
 
 def generate(rng, tier):
+    if rng.chance(6):
+        # a module file that is also named as an input of its own and has a nearer rustfmt.toml: formatted under the
+        # crate's configuration it is clean as a child of the first input, but not as a root under its own config
+        inner = rng.choice(["tab_spaces = 2\n", "hard_tabs = true\n", "tab_spaces = 8\n", 'brace_style = "AlwaysNextLine"\n'])
+        files = {
+            "c/lib.rs": '#[path = "sub/leaf.rs"]\nmod leaf;\n' + (gen_rust.unformatted(rng, 1) if rng.chance(50) else "fn ok() {}\n"),
+            "c/sub/leaf.rs": "fn  leaf( a:u8 ){if a>1 {call( a );}else{other( );}}\nstruct S{x:u8}\n",
+            "c/sub/rustfmt.toml": inner,
+        }
+        return {"world": {"files": files}, "nested_overlap": True, "sources": ["c/lib.rs", "c/sub/leaf.rs"],
+                "roots": ["c/lib.rs", "c/sub/leaf.rs"], "pre_roots": ["c/lib.rs"], "preformatted": ["c/lib.rs", "c/sub/leaf.rs"],
+                "variant": {"c/lib.rs": "lf", "c/sub/leaf.rs": "lf"}, "tree": {"root": "c/lib.rs"}, "hashseed": rng.below(1 << 32),
+                "stream_faults": 0, "abs": rng.chance(30), "order_swapped": rng.chance(30)}
     use_corpus = rng.chance(20)
 
     def body(r):
@@ -197,7 +210,9 @@ def execute(case):
         # step 0: obtain formatted text for the "already formatted" substitution
         sc.fresh_world(world)
         roots = case.get("roots") or [root_rel]
-        r0 = core.run_inv(sc, {"argv": ["--color", "never"] + roots, "hashseed": case["hashseed"]})
+        if case.get("order_swapped"):
+            roots = list(reversed(roots))
+        r0 = core.run_inv(sc, {"argv": ["--color", "never"] + (case.get("pre_roots") or roots), "hashseed": case["hashseed"]})
         v.account(r0, nontrivial=False)
         if r0.exit != 0 or r0.signal:
             v.probe("input-rejected")
@@ -254,6 +269,15 @@ def execute(case):
                 written[f] = cur
         W = set(written)
         opened_w = {os.path.normpath(e.path) for e in rf.muts() if e.op == "open"}
+        if case.get("nested_overlap"):
+            # the same file legitimately has two texts here (one per configuration in force), so only the verdicts
+            # are comparable: --check fails exactly when plain rustfmt rewrites something
+            rc, _ = run("check", ["--check"] + rootargs)
+            if not core.text_of(rc.stderr).strip() and rc.exit != (1 if opened_w else 0):
+                v.add("C06:check-exit-vs-rewrite|overlapping-inputs", "--check exit %s but plain rustfmt rewrites %s (inputs %s)" % (rc.status(), sorted(opened_w), roots))
+            v.probe("nested-overlap")
+            v.sample = {"files": sorted(world["files"]), "roots": roots, "rewritten": sorted(opened_w), "check_exit": rc.exit}
+            return v
         if opened_w != W:
             v.add("C06:files-mode-write-set", "opened for writing %s but content changed for %s" % (sorted(opened_w), sorted(W)))
         for p, (a, b) in df.items():
